@@ -197,7 +197,7 @@ def run(ctx):
         p = os.path.join(gen, 'idiom%d.c' % k)
         open(p, 'w').write(idioms[k] + '\n')
         corpus.append((p, [], 'gen-idiom'))
-    for f in ('idioms_exec.c', 'idioms_exec2.c', 'idioms_exec3.c'):
+    for f in ('idioms_exec.c', 'idioms_exec2.c', 'idioms_exec3.c', 'idioms_exec4.c', 'idioms_exec5.c'):
         corpus.append((os.path.join(core.VERIF, 'rt', f), [], 'gen-idiom'))
     # two erroneous operands in one constant expression: which diagnostic comes first must not depend on the host compiler's
     # evaluation order (every binary operator x ordered pair of distinct invalid operands x context)
